@@ -3,6 +3,7 @@ package main
 import (
 	"fmt"
 	"math/rand"
+	"os"
 	"strings"
 
 	"verif/internal/corpus"
@@ -91,7 +92,32 @@ func c07(c *ctx) {
 		}
 		infos[i] = info
 		cs := &gcase{id: i, g: g, inline: true}
-		cs.entries = entriesFor(r, g, 16, false, 0, alpha)
+		cs.entries = entriesFor(r, g, 26, false, 0, alpha)
+		cases = append(cases, cs)
+	}
+	// directed shapes (always run): token language whose first alternative is a capture over an inner choice
+	{
+		L := gram.Lit
+		tok := gram.Alt(
+			gram.Seq(gram.Un(gram.KCapture, gram.Alt(gram.Seq(L("0"), gram.Cls(gram.Item{Lo: 'x', Hi: 'x'}, gram.Item{Lo: 'X', Hi: 'X'}), gram.Un(gram.KPlus, gram.Cls(gram.Item{Lo: '0', Hi: '9'}, gram.Item{Lo: 'a', Hi: 'f'}))), gram.Un(gram.KPlus, gram.Rng('0', '9')))), gram.Act()),
+			gram.Seq(gram.Un(gram.KCapture, gram.Un(gram.KPlus, gram.Rng('a', 'z'))), gram.Act()),
+			gram.Seq(gram.Un(gram.KCapture, L("+")), gram.Act()))
+		g := &gram.Grammar{Rules: []*gram.Rule{
+			{Name: "R0", E: gram.Seq(gram.Ref("Tok"), gram.Un(gram.KStar, gram.Seq(L(" "), gram.Ref("Tok"))), gram.Un(gram.KNot, gram.Dot()))},
+			{Name: "Tok", E: tok}}}
+		g, info := instrument07(g, true)
+		id := len(cases)
+		infos[id] = info
+		cs := &gcase{id: id, g: g, inline: true}
+		for _, in := range []string{"0x1f", "12 ab +", "5x1f", "7Xa + 1", "0x", "x0", "+ +", "", "9"} {
+			cs.entries = append(cs.entries, entry{-1, in})
+		}
+		cs.entries = append(cs.entries, entriesFor(r, g, 12, false, 0, []rune("0123456789abcdefxX+ "))...)
+		if os.Getenv("VERIF_DEBUG") != "" {
+			for _, e := range cs.entries {
+				fmt.Fprintf(os.Stderr, "DIRECTED %q\n", e.input)
+			}
+		}
 		cases = append(cases, cs)
 	}
 	cfgs := []config{{name: "ast", v: vPlain, memo: true}, {name: "noast", v: vNoast}, {name: "noastinline", v: vNI}, {name: "noastswitch", v: vNS}, {name: "noastboth", v: vNB}}
